@@ -439,7 +439,7 @@ CHECKS["C15"] = dict(
          "cases (type, value, reference script) are counted as evaluations, non-trivial when the value holds a handle",
     assumptions=R_ASSUME,
     bounds=dict(quick="13 + 7 types; <= 120 values per type; depth 5", thorough="<= 400 values per type; depth 6; ASan build"),
-    floor=dict(transitions=dict(quick=3000, thorough=10000), evaluations=dict(quick=20000, thorough=40000)),
+    floor=dict(transitions=dict(quick=3000, thorough=6000), evaluations=dict(quick=20000, thorough=40000)),
 )
 
 
